@@ -388,6 +388,10 @@ class Run(object):
                 self.undecided.append('path budget %d exceeded' % MAX_PATHS)
                 break
             decisions = self.work.pop()
+            # contracts registered by the harness (stubs, loop specs, expression hooks) are per path
+            self.stubs.clear()
+            self.loop_specs.clear()
+            self.expr_hooks.clear()
             ctx = Ctx(self, decisions)
             _cur = ctx
             self.paths += 1
